@@ -37,9 +37,34 @@ def bounds(tier):
             "brute_force_walk_len": "|E|+3"}
 
 
+def hub_cycle_shapes():
+    """H(i, o, L, L2): i sources into a hub x, o sinks out of it, a cycle of length L through x (L = 1: self-loop) and optionally a second
+    one of length L2. The maximal safe sequence of the cycle is a CLOSED walk (first node == last node == x), the one shape of sequence
+    in which the node asked 'what reaches it' was asked 'what does it reach' just before - and, for i + o > 2, it competes with the
+    source / sink arcs for a slot."""
+    out = []
+    for i, o, L, L2 in itertools.product((1, 2), (1, 2), (1, 2, 3, 5), (0, 2)):
+        arcs = []
+        nxt = 1  # node 0 = hub
+        for _ in range(i):
+            arcs.append((nxt, 0)); nxt += 1
+        for _ in range(o):
+            arcs.append((0, nxt)); nxt += 1
+        for ln in (L, L2):
+            if not ln:
+                continue
+            prev = 0
+            for _ in range(ln - 1):
+                arcs.append((prev, nxt)); prev = nxt; nxt += 1
+            arcs.append((prev, 0))
+        out.append((nxt, tuple(sorted(arcs))))
+    return out
+
+
 def cases(tier, seed):
     quick = tier == "quick"
     cyc = world.dig_shapes(4, 7 if quick else 8) + world.named_shapes() + [x for x in world.dig_shapes(5, 6, selfloops=False) if x[0] == 5 and not world.is_acyclic(*x)]
+    cyc = cyc + hub_cycle_shapes()
     seen = set()
     for idx, shp in enumerate(cyc):
         if shp in seen:
